@@ -94,7 +94,8 @@ func (its *ordaMap) Put(key string, value interface{}) (interface{}, errors.Orda
 }
 
 func (its *ordaMap) Get(key string) interface{} {
-	return its.snapshot().get(types.NormalizeKey(key))
+	// the caller gets a value of its own: what it does to an object or array it was given is not done to the replica
+	return types.NormalizeValue(its.snapshot().get(types.NormalizeKey(key)))
 }
 
 func (its *ordaMap) Remove(key string) (interface{}, errors.OrdaError) {
@@ -193,7 +194,7 @@ func (its *mapSnapshot) ToJSON() interface{} {
 	m := make(map[string]interface{})
 	for k, v := range its.Map {
 		if v.getValue() != nil {
-			m[k] = v.getValue()
+			m[k] = types.NormalizeValue(v.getValue()) // a copy: the view does not share objects and arrays with the replica
 		}
 	}
 	return m
